@@ -167,6 +167,7 @@ func (p *Progress) Add(total int64, filler BarFiller, options ...BarOption) (*Ba
 			ps.hm.push(bar, true)
 		}
 		ps.idCount++
+		vhook("add", bar, bs.id, len(ps.queueBars))
 		ch <- bar
 	}:
 		return <-ch, nil
@@ -286,6 +287,7 @@ func (p *Progress) serve(s *pState, cw *cwriter.Writer) {
 				interceptIO = nil
 			}
 		case <-p.done:
+			vhook("serve.done", nil, 0, 0)
 			if err != nil {
 				_, _ = fmt.Fprintln(s.debugOut, err.Error())
 			} else if s.autoRefresh {
@@ -298,6 +300,7 @@ func (p *Progress) serve(s *pState, cw *cwriter.Writer) {
 					s.hm.state(update)
 				}
 			}
+			vhook("serve.end", nil, 0, 0)
 			s.hm.end(s.shutdownNotifier)
 			return
 		}
@@ -335,9 +338,12 @@ func (s *pState) manualRefreshListener(done chan struct{}) {
 }
 
 func (s *pState) render(cw *cwriter.Writer) (err error) {
+	vhook("render.begin", nil, 0, 0)
+	defer func() { vhook("render.end", nil, 0, verifErrFlag(err)) }()
 	iter, iterPop := make(chan *Bar), make(chan *Bar)
 	s.hm.sync(s.iterDrop)
 	s.hm.iter(s.iterDrop, iter, iterPop)
+	vhook("render.requested", nil, 0, 0)
 
 	var width, height int
 	if cw.IsTerminal() {
@@ -368,6 +374,7 @@ func (s *pState) flush(cw *cwriter.Writer, height int, iter <-chan *Bar) error {
 
 	for b := range iter {
 		frame := <-b.frameCh
+		vhook("flush.bar", b, frame.shutdown, verifErrFlag(frame.err))
 		if frame.err != nil {
 			close(s.iterDrop)
 			b.cancel()
@@ -415,6 +422,7 @@ func (s *pState) flush(cw *cwriter.Writer, height int, iter <-chan *Bar) error {
 		}
 	}
 
+	vhook("flush.write", nil, len(rows), popCount)
 	return cw.Flush(len(rows) - popCount)
 }
 
